@@ -512,7 +512,7 @@ func init() {
 			return v
 		}
 		// deadline variant: a context deadline in the middle of the evaluation
-		if c.Note == "deadline" {
+		if strings.Contains(c.Note, "deadline") {
 			st := memstore.New(c.Series)
 			eng := NewEngine(c.Lookback, c.Opt, false)
 			base := runFaulted(c, eng, st, nil, 0)
